@@ -76,6 +76,7 @@ def fuzz_stage(chk, seeds):
         shutil.copy(os.path.join(vlib.REPO, 'Cargo.lock'), lock)
     corp = os.path.join(WORK[0], 'fuzz_corpus')
     art = os.path.join(WORK[0], 'fuzz_artifacts')
+    shutil.rmtree(art, ignore_errors=True)
     os.makedirs(corp, exist_ok=True)
     os.makedirs(art, exist_ok=True)
     for i, t in enumerate(seeds):
@@ -89,8 +90,17 @@ def fuzz_stage(chk, seeds):
     cmd = ['cargo', '+nightly', 'fuzz', 'run', '--fuzz-dir', fuzzdir, 'frontend', corp, '--',
            '-max_total_time=%d' % secs, '-fork=16', '-timeout=10', '-max_len=4096', '-ignore_crashes=1',
            '-ignore_timeouts=1', '-ignore_ooms=1', '-artifact_prefix=' + art + '/', '-seed=%d' % (chk.seed + 1)]
+    # the property bounds nesting; an instrumented build uses ~3 KB of native stack per nesting level, so a 4 KB
+    # input of nothing but prefix operators exhausts the default 8 MB. The fuzzer runs with a 1 GB stack limit:
+    # with inputs capped at 4096 bytes only unbounded recursion can exhaust it. Bounded nesting on the normal
+    # stack is the deterministic boundary suite's job (main stage).
+    import resource
+
+    def big_stack():
+        resource.setrlimit(resource.RLIMIT_STACK, (1 << 30, 1 << 30))
     try:
-        p = subprocess.run(cmd, cwd=fuzzdir, env=env, capture_output=True, text=True, timeout=secs + 1800, errors='replace')
+        p = subprocess.run(cmd, cwd=fuzzdir, env=env, capture_output=True, text=True, timeout=secs + 1800,
+                           errors='replace', preexec_fn=big_stack)
     except subprocess.TimeoutExpired:
         chk.inconclusive.append('libFuzzer run did not finish')
         return
@@ -115,9 +125,21 @@ def fuzz_stage(chk, seeds):
         if r['problem']:
             chk.violation(r['problem'] + ' [libfuzzer %s]' % kind, {'input.lay': text}, {'artifact': f})
         elif kind == 'crash':
-            summ = re.findall(r'SUMMARY: [^\n]*', log)
+            fbin = os.path.join(vlib.TARGET, 'fuzz', 'x86_64-unknown-linux-gnu', 'release', 'frontend')
+            try:
+                q = subprocess.run([fbin, os.path.join(art, f)], capture_output=True, text=True, timeout=120,
+                                   errors='replace', preexec_fn=big_stack)
+            except subprocess.TimeoutExpired:
+                chk.inconclusive.append('re-run of fuzz artifact %s timed out' % f)
+                continue
+            if q.returncode == 0:
+                chk.count('libfuzzer_crash_artifacts_not_reproduced')
+                chk.inconclusive.append('fuzz artifact %s does not reproduce on the fuzz binary or the debug build' % f)
+                continue
+            summ = re.findall(r'(?:SUMMARY: |panicked at )[^\n]*', q.stderr)
             chk.violation('libfuzzer+asan crash in the front end not reproduced by the debug build: %s' % (
-                summ[0][:160] if summ else ''), {'input.lay': text}, {'artifact': f})
+                re.sub(r'0x[0-9a-f]+', 'ADDR', summ[0])[:160] if summ else 'exit %d' % q.returncode),
+                {'input.lay': text}, {'artifact': f, 'asan': q.stderr[-3000:]})
         elif kind == 'timeout':
             chk.violation('libfuzzer: front end exceeded 10 s on a %d byte input' % len(data), {'input.lay': text}, {'artifact': f})
 
